@@ -500,7 +500,10 @@ func (tx *FnTx) callDynamic(cc *ssa.CallCommon, v ssa.Value, args []Term, st *St
 		tx.assumeReach("false")
 	}
 	var post *State
-	if items, ok := tx.callbackFrame(name); ok {
+	if tx.c != nil && tx.c.NoReturn[name] {
+		// the path after the call is dead (assumed above): keep the pre-state so that joins with live paths see no effect
+		post = st.clone()
+	} else if items, ok := tx.callbackFrame(name); ok {
 		env := tx.baseEnv(st, tx.entry)
 		env.resolve = tx.resolverUpTo(tx.curBlock, nil, true, tx.curIdx)
 		env.preferLocals = true
@@ -773,6 +776,26 @@ func (tx *FnTx) modelled(key string, callee *ssa.Function, cc *ssa.CallCommon, v
 		ns.hv = tx.d.fresh("hv", "Int")
 		tx.assume(fmt.Sprintf("(= (%s %s (s-off %s)) %s)", fn, arr, b.S, val.S))
 		return ns, true
+	case "encoding/binary.Read":
+		// binary.Read(r, order, data) with data = pointer to a fixed-size value: it writes *data and nothing else that is
+		// modelled (the reader's own state is not); the error result is unconstrained
+		if len(cc.Args) == 3 {
+			if mi, ok := cc.Args[2].(*ssa.MakeInterface); ok {
+				if pt, ok := mi.X.Type().Underlying().(*types.Pointer); ok {
+					if _, isBasic := pt.Elem().Underlying().(*types.Basic); isBasic {
+						nv := tx.d.fresh("bread", tx.d.sortOf(pt.Elem()))
+						t := Term{S: nv, Sort: tx.d.sortOf(pt.Elem()), GT: pt.Elem()}
+						tx.assumeTyped(t, pt.Elem(), st)
+						ns := tx.store(mi.X, t, st)
+						res := tx.freshResults("bread_err", cc.Signature(), ns)
+						tx.setResult(v, cc.Signature(), res)
+						tx.note("encoding/binary.Read modelled: writes only the value its data pointer refers to")
+						return ns, true
+					}
+				}
+			}
+		}
+		return st, false
 	case "math.Floor", "math.Ceil":
 		x := args[0]
 		isCeil := key == "math.Ceil"
